@@ -10,6 +10,33 @@ TECH_E1 = ('bounded exhaustive model checking of the implementation: product exp
 TECH_E2 = ('bounded exhaustive model checking of the implementation: explicit-state BFS over operation histories on the real '
            'objects (canonical-state dedup, invariant on every state, reference model stepped in lock-step) plus product explorer')
 
+
+AGED = ('operands / sources also reached through five histories (common.build_aged: used-then-rewritten in place, view of a used parent written '
+        'through the parent, siblings re-formatted, used-then-derived, integer-born then resized) and required to behave like fresh ones')
+# dimensions added after the fourth wave of seeded changes (appended to the level text)
+ADDENDA = {
+    'C01': 'Array carriers (incl. NumPy arrays of decimal strings) are also checked for aliasing: a second object stored from the same array and an in-place rewrite of the first leave both the second object and the array unchanged.',
+    'C02': 'Saturation clause also with Python ints inside list / tuple / nested containers. Part V: derive (slice, row, copy(), T, element, reversed view) x re-format (6 ways) x write through the derived object (5 ways): every object alive, the parent included, stays well-formed.',
+    'C03': 'Destinations with a history (shallow copy / view widened first, widened and narrowed back, used); 2-d object arrays of >=64-bit codes in C / transposed / Fortran / reversed layouts and sums of transposed wide operands.',
+    'C04': 'Write carriers: decimal strings, tuples / lists / NumPy arrays of them, narrow dtypes, nested tuples; callbacks registered only after a prelude (flag-raising writes, reset, resize) must hear about the judged write alone.',
+    'C05': 'Destinations with a history (shallow copy widened to 64 bits / re-formatted, view widened and written, widened and narrowed back, used).',
+    'C06': 'A Config whose every setting was changed to other valid values and put back must be state-equal to a fresh one and infer the same formats.',
+    'C07': AGED + '; the same object on both sides (x op x).',
+    'C08': AGED + '; op / reconfigure exactly one of {modes, const_op_sizing, op_input_size} / same op with the same constant; target formats whose n_frac is up to 47 bits away from the exact result\'s (saturate: any magnitude; wrap: scaled result below 2^62).',
+    'C09': AGED + '; wide operands (12..52 bits) whose binary points are far apart, result word <= 53 bits.',
+    'C10': AGED + '; routes resize(signed, n_int, n_frac) and Fxp(x, n_int=...); scalar sources that are elements of an array read before and after a resize by dtype; rescaling by up to 52 bits under saturate (no 62-bit limit).',
+    'C11': 'hex / base_repr / bin(frac_dot) of 2-d objects in five non-C layouts; strings fed into objects reached through a history (integer-born then resized by n_frac / dtype, like-derived, used).',
+    'C12': 'Complex dtype strings combined with like= / class-level template of a real object; render - store complex - render - store real - render histories.',
+    'C13': AGED + '; array second operands (outer, equal-length, matrix x vector, scalar x vector) at every word length.',
+    'C14': AGED + '; every power of two, its neighbours and the extremes as single elements x every shift count up to 62 - n_word.',
+    'C15': AGED + '; clip with bounds outside the range, negative lower bound for unsigned formats, integer bounds.',
+    'C16': AGED + '; format pairs whose binary points are up to 68 bits apart (n_frac in {-8, 0, n+8, 44, 60}).',
+    'C17': 'Histories on live scaled objects: created in another format and read, then resize by n_frac / dtype / n_word+n_int, like=, or set_best_sizes, then store and read.',
+    'C18': 'Python ints around 2^63 / 2^64 in 7 container kinds (raw and value mode); every derived wide object (like=, template, deepcopy, ~ & | ^, T, flatten, trunc shift, like()) is then overflowed, resized to 16 bits and stored inexactly - its sources keep their record.',
+    'C19': 'operate - rewrite every element in place - operate histories on vector operands (incl. >=64-bit words); the same object on both sides.',
+    'C20': 'Containers mixing numbers and bin/hex strings in every position; containers stored into formats without fraction bits, 64-bit words and negative n_frac; two objects built from one array, then an indexed write.',
+}
+
 # property -> (built?, technique, level text, level note, design ref)
 CHECKS = {
     'C01': (TECH_E1,
@@ -171,7 +198,7 @@ def main():
                 'evidence_file': 'evidence/%s.json' % pid,
                 'replay_cmd_template': './check %s --replay {path}' % pid,
                 'engine': 'mc',
-                'level_claimed': {'category': 'model_checking', 'text': text, 'design_ref': ref},
+                'level_claimed': {'category': 'model_checking', 'text': text + (' Added dimensions: ' + ADDENDA[pid] if pid in ADDENDA else ''), 'design_ref': ref},
                 'level_note': note,
                 'technique': tech,
             })
